@@ -143,11 +143,35 @@ def build_composition(kind, seed):
         inv = {np.sqrt: np.square, np.log1p: np.expm1, np.exp: np.log, np.square: np.sqrt}.get(ufunc)
         ft = FunctionTransformer(func=ufunc, inverse_func=inv if rng.randint(2) else None, check_inverse=False)
         return Pipeline([("f", ft), ("s", StandardScaler()), ("m", Ridge(alpha=float(rng.choice([0.1, 1.0]))))]), "reg", "nonneg"
+    if kind == "scipy_ufunc_transformer":
+        # wrappers around scipy.special ufuncs are default-trusted parts too
+        import scipy.special as sps
+        from sklearn.compose import TransformedTargetRegressor
+        f, finv = [(sps.expit, sps.logit), (sps.log1p, sps.expm1), (sps.exp2, None), (sps.cbrt, None)][rng.randint(4)]
+        ft = FunctionTransformer(func=f, inverse_func=finv, check_inverse=False)
+        if rng.randint(2):
+            return Pipeline([("f", ft), ("s", StandardScaler()), ("m", Ridge())]), "reg", "nonneg"
+        return TransformedTargetRegressor(regressor=Pipeline([("f", ft), ("m", Ridge())]), func=sps.log1p, inverse_func=sps.expm1, check_inverse=False), "reg", "nonneg"
+    if kind == "random_state_instance":
+        # a RandomState instance (not an int seed) that already made an ODD number of normal draws: its cached second
+        # gaussian is part of the state the estimator carries
+        from sklearn.mixture import GaussianMixture
+        from sklearn.random_projection import GaussianRandomProjection
+        from sklearn.ensemble import RandomForestClassifier
+        rs = np.random.RandomState(int(rng.randint(1000)))
+        for _ in range(2 * int(rng.randint(0, 3)) + 1):
+            rs.normal()
+        pick = rng.randint(3)
+        if pick == 0:
+            return GaussianMixture(n_components=2, random_state=rs), "clf", "dense"
+        if pick == 1:
+            return Pipeline([("p", GaussianRandomProjection(n_components=2, random_state=rs)), ("m", LogisticRegression())]), "clf", "dense"
+        return RandomForestClassifier(n_estimators=3, max_depth=2, random_state=rs), "clf", "dense"
     raise ValueError(kind)
 
 
 COMPOSITIONS = ["pipeline", "column_transformer", "feature_union", "grid_search", "voting", "stacking", "bagging", "function_transformer",
-                "class_weight_dict"]
+                "class_weight_dict", "scipy_ufunc_transformer", "random_state_instance"]
 
 
 def try_fit(est, tags, data_kind, seed):
